@@ -98,7 +98,9 @@ def check_case(ctx, case):
         ctx.evaluation()
         ctx.hist("outcomes", "as_expression->" + o.cls)
         if o.kind != "obj":
-            if o.kind not in ("DomainError", "CoordinateMissing"):
+            if C.overflow_excusable(s, o):
+                ctx.count("overflow_with_undefined_constant_part_unfiltered")
+            elif o.kind not in ("DomainError", "CoordinateMissing"):
                 ctx.violation("foreign_outcome", f"as_expression() [{key}] of d/d{var} {what0}: {o.brief()}")
             continue
         try:
